@@ -80,13 +80,47 @@ pub(crate) fn any_instant() -> Inst {
     Inst::from_micros(t)
 }
 
-/// Ring view as the station logic sees it: LAS state, NS, PS (the LAS bits themselves are only
-/// read and written inside TokenRing).
+/// How the TokenRing mutators are stubbed in a station step harness.
+#[derive(Clone, Copy, PartialEq, Eq)]
+pub(crate) enum RingMode {
+    /// record the call, leave the ring in an ARBITRARY new view (used for the verdict: the
+    /// station logic is checked for every ring evolution)
+    Havoc,
+    /// record the call, apply the precise u128 reference model to a SMALL consistent ring
+    /// (LAS = {TS?, NS, PS, one more station}); used by the `*__replay` twins, whose counterexamples are faithful
+    /// for the native replay against the real bitvec TokenRing
+    Small,
+}
+pub(crate) static mut RING_MODE: RingMode = RingMode::Havoc;
+pub(crate) fn ring_mode() -> RingMode {
+    unsafe { RING_MODE }
+}
+pub(crate) fn use_small_ring() {
+    unsafe {
+        RING_MODE = RingMode::Small;
+    }
+}
+
+/// Ring view as the station logic sees it: LAS state, NS, PS.  In `Havoc` mode the LAS bits are
+/// irrelevant (only TokenRing reads them, and its mutators are stubbed); in `Small` mode the LAS
+/// is a consistent small ring {TS?, NS, PS, one more} whose cyclic neighbours of TS are exactly NS
+/// and PS.
 pub(crate) fn any_ring_view(ts: u8) -> Model {
     let ns: u8 = kani::any();
     let ps: u8 = kani::any();
     kani::assume(ns <= 125 && ps <= 125);
-    Model { las: 0, state: any_las_state(), ts, ns, ps }
+    let las = if ring_mode() == RingMode::Small {
+        let with_ts: bool = kani::any();
+        // one more station somewhere, so that a ring of up to four stations is covered
+        let extra: u8 = kani::any();
+        kani::assume(extra <= 125);
+        let las = (1u128 << ns) | (1u128 << ps) | (1u128 << extra) | if with_ts { 1u128 << ts } else { 0 };
+        kani::assume(Model::neighbours(las, ts) == (ns, ps));
+        las
+    } else {
+        0
+    };
+    Model { las, state: any_las_state(), ts, ns, ps }
 }
 
 pub(crate) fn any_gap_state(p: &Parameters) -> GapState {
@@ -219,16 +253,16 @@ fn c12_gap_lemma() {
     let succ = if current == hsa - 1 { 0 } else { current + 1 };
     match next {
         GapState::DoPoll { current_address: a } => {
-            assert!(a != ts, "C12/gap-not-self: the station never polls itself");
-            assert!(a < hsa, "C12/gap-below-hsa: only addresses below HSA are polled");
-            assert!(ref_in_gap(a, ts, ns, hsa), "C12/gap-range: a polled address lies strictly between this station and its successor (cyclically)");
-            assert!(a == succ, "C12/gap-no-skip: the sweep advances to the cyclic successor of the last polled address");
+            vassert!(a != ts, "C12/gap-not-self: the station never polls itself");
+            vassert!(a < hsa, "C12/gap-below-hsa: only addresses below HSA are polled");
+            vassert!(ref_in_gap(a, ts, ns, hsa), "C12/gap-range: a polled address lies strictly between this station and its successor (cyclically)");
+            vassert!(a == succ, "C12/gap-no-skip: the sweep advances to the cyclic successor of the last polled address");
             kani::cover!(a < ts && ns < ts, "cover: wrap-around GAP polled below TS");
             kani::cover!(ns == ts, "cover: whole ring is GAP when alone");
         }
         GapState::Waiting { rotation_count } => {
-            assert!(rotation_count == 0, "C12/gap-wait: a finished sweep starts the waiting period at zero");
-            assert!(!ref_in_gap(succ, ts, ns, hsa), "C12/gap-complete: the sweep ends only when the next address is outside the GAP");
+            vassert!(rotation_count == 0, "C12/gap-wait: a finished sweep starts the waiting period at zero");
+            vassert!(!ref_in_gap(succ, ts, ns, hsa), "C12/gap-complete: the sweep ends only when the next address is outside the GAP");
             kani::cover!(current == ns && ns + 1 == ts, "cover: successor discovered at TS-1 ends the sweep");
             kani::cover!(current == ns && ns == hsa - 1 && ns > ts, "cover: successor discovered at HSA-1 ends the sweep");
         }
@@ -294,7 +328,7 @@ fn record(r: &mut crate::fdl::TokenRing, call: RingCall, new: RingView) {
     let m = Model { las: las_of(r), state: new.state, ts: r.this_station(), ns: new.ns, ps: new.ps };
     *r = from_model(&m);
     unsafe {
-        assert!(RING_N < MAX_CALLS, "harness: more TokenRing calls in one poll than the log holds");
+        vassert!(RING_N < MAX_CALLS, "harness: more TokenRing calls in one poll than the log holds");
         RING_CALLS[RING_N] = call;
         RING_POST[RING_N] = new;
         RING_N += 1;
@@ -308,12 +342,34 @@ fn any_view() -> RingView {
     RingView { state: any_las_state(), ns, ps }
 }
 
+fn record_model(r: &mut crate::fdl::TokenRing, call: RingCall, m: &Model) {
+    *r = from_model(m);
+    unsafe {
+        vassert!(RING_N < MAX_CALLS, "harness: more TokenRing calls in one poll than the log holds");
+        RING_CALLS[RING_N] = call;
+        RING_POST[RING_N] = RingView { state: m.state, ns: m.ns, ps: m.ps };
+        RING_N += 1;
+    }
+}
+
 pub(crate) fn abs_witness_token_pass(r: &mut crate::fdl::TokenRing, sa: crate::Address, da: crate::Address) {
+    if ring_mode() == RingMode::Small {
+        let mut m = to_model(r);
+        m.witness(sa, da);
+        record_model(r, RingCall { kind: 1, a: sa, b: da }, &m);
+        return;
+    }
     let new = if sa > 125 || da > 125 { view_of(r) } else { any_view() };
     record(r, RingCall { kind: 1, a: sa, b: da }, new);
 }
 
 pub(crate) fn abs_set_next_station(r: &mut crate::fdl::TokenRing, address: crate::Address) {
+    if ring_mode() == RingMode::Small {
+        let mut m = to_model(r);
+        m.set_next(address);
+        record_model(r, RingCall { kind: 2, a: address, b: 0 }, &m);
+        return;
+    }
     let old = view_of(r);
     let mut new = any_view();
     new.state = old.state;
@@ -322,6 +378,12 @@ pub(crate) fn abs_set_next_station(r: &mut crate::fdl::TokenRing, address: crate
 }
 
 pub(crate) fn abs_remove_station(r: &mut crate::fdl::TokenRing, address: crate::Address) {
+    if ring_mode() == RingMode::Small {
+        let mut m = to_model(r);
+        m.remove(address);
+        record_model(r, RingCall { kind: 3, a: address, b: 0 }, &m);
+        return;
+    }
     let old = view_of(r);
     let mut new = any_view();
     new.state = old.state;
@@ -329,14 +391,87 @@ pub(crate) fn abs_remove_station(r: &mut crate::fdl::TokenRing, address: crate::
     record(r, RingCall { kind: 3, a: address, b: 0 }, new);
 }
 
-pub(crate) fn ring_calls() -> usize {
-    unsafe { RING_N }
+// ---- reading the call log ------------------------------------------------------------------
+//
+// Under Kani the stubs above fill the log.  In a NATIVE replay (`cargo kani playback`, cfg(test))
+// no stub is applied: the real bitvec TokenRing runs and the log stays empty.  The oracles
+// therefore never index the log directly but go through `Expect`: under Kani it compares the
+// recorded calls with the expected ones; natively it applies the expected calls to a shadow copy
+// of the precise reference model and finally compares the shadow with the real ring.
+
+#[derive(Clone, Copy, PartialEq, Eq)]
+pub(crate) struct Expect {
+    k: usize,
+    ok: bool,
+    shadow: Model,
 }
-pub(crate) fn ring_call(i: usize) -> RingCall {
-    unsafe { RING_CALLS[i] }
+
+pub(crate) static mut SHADOW0: Model = Model { las: 0, state: MLas::Uninitialized, ts: 0, ns: 0, ps: 0 };
+
+impl Expect {
+    /// start from the ring as it was before the poll (recorded by `snapshot`)
+    pub fn new() -> Self {
+        Expect { k: 0, ok: true, shadow: unsafe { SHADOW0 } }
+    }
+
+    /// the next TokenRing call must be this one; returns the ring view after it
+    pub fn call(&mut self, kind: u8, a: u8, b: u8) -> RingView {
+        if cfg!(test) {
+            match kind {
+                1 => self.shadow.witness(a, b),
+                2 => self.shadow.set_next(a),
+                _ => self.shadow.remove(a),
+            }
+            self.k += 1;
+            RingView { state: self.shadow.state, ns: self.shadow.ns, ps: self.shadow.ps }
+        } else {
+            let n = unsafe { RING_N };
+            if self.k < n {
+                self.ok = self.ok && unsafe { RING_CALLS[self.k] } == RingCall { kind, a, b };
+                let v = unsafe { RING_POST[self.k] };
+                self.k += 1;
+                v
+            } else {
+                self.ok = false;
+                self.k += 1;
+                RingView { state: self.shadow.state, ns: self.shadow.ns, ps: self.shadow.ps }
+            }
+        }
+    }
+
+    /// every call expected so far was made as expected (natively: nothing to compare yet)
+    pub fn ok_so_far(&self) -> bool {
+        if cfg!(test) {
+            true
+        } else {
+            self.ok && self.k <= unsafe { RING_N }
+        }
+    }
+
+    /// exactly the expected calls were made (natively: the real ring equals the shadow model)
+    pub fn done(&self, st: &FdlActiveStation) -> bool {
+        if cfg!(test) {
+            let r = to_model(&st.token_ring);
+            r.las == self.shadow.las && r.state == self.shadow.state && r.ns == self.shadow.ns && r.ps == self.shadow.ps
+        } else {
+            self.ok && self.k == unsafe { RING_N }
+        }
+    }
+
+    /// no station was removed from the ring view by a time-out (first call is not a removal)
+    pub fn no_removal(&self) -> bool {
+        if cfg!(test) {
+            true // subsumed natively by `done` (the shadow never removes)
+        } else {
+            let n = unsafe { RING_N };
+            n == 0 || unsafe { RING_CALLS[0] }.kind != 3
+        }
+    }
 }
-pub(crate) fn ring_post(i: usize) -> RingView {
-    unsafe { RING_POST[i] }
+
+/// no TokenRing call at all in this poll
+pub(crate) fn ring_untouched(st: &FdlActiveStation) -> bool {
+    Expect::new().done(st)
 }
 
 macro_rules! l2_harness {
@@ -401,6 +536,9 @@ pub(crate) struct Pre {
 }
 
 pub(crate) fn snapshot(s: &FdlActiveStation, phy: &impl PhyView) -> Pre {
+    unsafe {
+        SHADOW0 = to_model(&s.token_ring);
+    }
     Pre {
         lba: s.last_bus_activity,
         pending_bytes: s.pending_bytes,
@@ -490,24 +628,24 @@ pub(crate) fn is_status_response(s: &Sent, da: u8, sa: u8, state: crate::fdl::Re
 /// Obligations every poll has to meet whatever the state (C01 timing/bookkeeping, invariant).
 pub(crate) fn universal(pre: &Pre, st: &FdlActiveStation, phy: &impl PhyView, now: Inst, napps: usize) {
     let (tx_calls, rx_calls, tx_len) = (phy.v_tx_calls(), phy.v_rx_calls(), phy.v_tx().len());
-    assert!(tx_calls <= 1, "C01/one-tx: at most one transmission is started per poll");
+    vassert!(tx_calls <= 1, "C01/one-tx: at most one transmission is started per poll");
     if pre.busy(now) {
-        assert!(tx_calls == 0 && rx_calls == 0, "C01/busy: while a transmission is in progress the station neither transmits nor receives");
+        vassert!(tx_calls == 0 && rx_calls == 0, "C01/busy: while a transmission is in progress the station neither transmits nor receives");
     }
     if tx_calls == 1 {
         let l = pre.lba;
-        assert!(l.is_some(), "C01/sync-pause: nothing is sent before any bus activity reference exists");
+        vassert!(l.is_some(), "C01/sync-pause: nothing is sent before any bus activity reference exists");
         let idle_us = now.total_micros() - l.unwrap().total_micros();
-        assert!(idle_us > 0, "C01/sync-pause: a telegram starts after the end of the previous one");
+        vassert!(idle_us > 0, "C01/sync-pause: a telegram starts after the end of the previous one");
         // exact arithmetic, up to the 1 us clock resolution: idle * rate >= 33 bit - 1 us
-        assert!((idle_us as u64) * rate() + rate() >= 33_000_000, "C01/sync-pause: every telegram starts at least 33 bit times after the end of the previous bus activity");
-        assert!(!pre.new_bytes(), "C01/idle-after-rx: nothing is sent in a poll in which newly received bytes became visible");
+        vassert!((idle_us as u64) * rate() + rate() >= 33_000_000, "C01/sync-pause: every telegram starts at least 33 bit times after the end of the previous bus activity");
+        vassert!(!pre.new_bytes(), "C01/idle-after-rx: nothing is sent in a poll in which newly received bytes became visible");
         let want = now.total_micros() + bits_us(11 * tx_len as u64);
-        assert!(st.last_bus_activity.map(|t| t.total_micros()) == Some(want), "C01/tx-accounted: the own transmission is accounted as bus activity until its last bit");
+        vassert!(st.last_bus_activity.map(|t| t.total_micros()) == Some(want), "C01/tx-accounted: the own transmission is accounted as bus activity until its last bit");
     } else if !pre.busy(now) && pre.new_bytes() && st.connectivity_state == ConnectivityState::Online {
-        assert!(st.last_bus_activity.map(|t| t >= now).unwrap_or(false), "C01/rx-accounted: newly visible received bytes count as bus activity now");
+        vassert!(st.last_bus_activity.map(|t| t >= now).unwrap_or(false), "C01/rx-accounted: newly visible received bytes count as bus activity now");
     }
-    assert!(inv_fdl(st, napps), "C05/inv: the representation invariant of the station is preserved by poll()");
+    vassert!(inv_fdl(st, napps), "C05/inv: the representation invariant of the station is preserved by poll()");
 }
 
 /// Reference rules for a ring member that hears telegrams while not holding the token
@@ -521,19 +659,12 @@ pub(crate) struct IdleRef {
     /// 0 = still ActiveIdle, 1 = back to ListenToken (address collision), 2 = token accepted
     pub outcome: u8,
     /// TokenRing calls expected so far
-    pub calls: usize,
-    pub calls_ok: bool,
+    pub exp: Expect,
 }
 
 impl IdleRef {
     fn expect_witness(&mut self, sa: u8, da: u8) {
-        if self.calls < ring_calls() {
-            self.calls_ok = self.calls_ok && ring_call(self.calls) == RingCall { kind: 1, a: sa, b: da };
-            self.ring = ring_post(self.calls);
-        } else {
-            self.calls_ok = false;
-        }
-        self.calls += 1;
+        self.ring = self.exp.call(1, sa, da);
     }
 
     pub fn hear(&mut self, t: &STel<3>, is_last: bool, ts: u8) {
@@ -567,16 +698,16 @@ impl IdleRef {
 
     /// Compare the station after the poll with the reference outcome.
     pub fn check(&self, st: &FdlActiveStation, now: Inst) {
-        assert!(self.calls_ok && self.calls == ring_calls(), "C02/las: the ring view is told exactly the witnessed token passes, in order");
+        vassert!(self.exp.done(st), "C02/las: the ring view is told exactly the witnessed token passes, in order");
         match self.outcome {
-            1 => assert!(st.state == State::ListenToken { status_request: None, collision_count: 0 }, "C06/collision: two consecutive tokens carrying the own address as source make a ring member leave the ring and listen again"),
+            1 => vassert!(st.state == State::ListenToken { status_request: None, collision_count: 0 }, "C06/collision: two consecutive tokens carrying the own address as source make a ring member leave the ring and listen again"),
             2 => {
-                assert!(
+                vassert!(
                     st.state == State::UseToken { data: UseTokenData { token_time: now, first_app: None }, first_cycle_done: false },
                     "C11/accept: a token addressed to this station is accepted from the registered predecessor, or from another station on its second offer"
                 );
             }
-            _ => assert!(
+            _ => vassert!(
                 st.state == State::ActiveIdle { status_request: self.status_request, new_previous_station: self.new_previous, collision_count: self.collisions },
                 "C11/accept: without an acceptable token the station stays idle, remembering a stranger's first offer and a status request addressed to it"
             ),
@@ -625,46 +756,46 @@ fn step_listen_token(log_on: bool) {
     universal(&pre, &st, &phy, now, 1);
     let s = sent(&phy);
     if pre.busy(now) {
-        assert!(st.state == State::ListenToken { status_request: sr, collision_count: cc } && ring_calls() == 0, "C01/busy: nothing changes while a transmission is in progress");
+        vassert!(st.state == State::ListenToken { status_request: sr, collision_count: cc } && ring_untouched(&st), "C01/busy: nothing changes while a transmission is in progress");
         return;
     }
     if pre.token_lost(now) {
         // C06(b): a silent bus for the station's time-out ends in a claim
-        assert!(s == Sent::Token { da: ts, sa: ts }, "C06/claim: after its token-lost time-out of silence the station claims the token with a token telegram to itself");
-        assert!(st.state == State::ClaimToken { step: ClaimTokenStep::SecondToken }, "C06/claim: the claim continues with the second token telegram");
-        assert!(view_of(&st.token_ring).state == MLas::Valid, "C02/claim: a claiming station regards its ring view as valid");
-        assert!(st.gap_state == GapState::DoPoll { current_address: ts }, "C12/claim-scan: after a claim the whole GAP is scanned starting behind the own address");
+        vassert!(s == Sent::Token { da: ts, sa: ts }, "C06/claim: after its token-lost time-out of silence the station claims the token with a token telegram to itself");
+        vassert!(st.state == State::ClaimToken { step: ClaimTokenStep::SecondToken }, "C06/claim: the claim continues with the second token telegram");
+        vassert!(view_of(&st.token_ring).state == MLas::Valid, "C02/claim: a claiming station regards its ring view as valid");
+        vassert!(st.gap_state == GapState::DoPoll { current_address: ts }, "C12/claim-scan: after a claim the whole GAP is scanned starting behind the own address");
         kani::cover!(sr.is_some(), "cover: claim wins over a pending status reply");
         return;
     }
-    assert!(!st.state.have_token(), "C11/listen-never-accepts: a listening station never becomes token holder except by claiming after its time-out");
-    assert!(!matches!(s, Sent::Token { .. }), "C01/role: a listening station sends no token unless it claims after its time-out");
+    vassert!(!st.state.have_token(), "C11/listen-never-accepts: a listening station never becomes token holder except by claiming after its time-out");
+    vassert!(!matches!(s, Sent::Token { .. }), "C01/role: a listening station sends no token unless it claims after its time-out");
     if let Some(src) = sr {
         if pre.pause_over(now) {
             let ready = pre.ring.state == MLas::Valid;
             let want = if ready && src == pre.ring.ps { crate::fdl::ResponseState::MasterWithoutToken } else { crate::fdl::ResponseState::MasterNotReady };
-            assert!(is_status_response(&s, src, ts, want), "C12/status-reply: a listening station answers the requester: 'ready' only with a valid ring view and only to its predecessor, else 'not ready'");
+            vassert!(is_status_response(&s, src, ts, want), "C12/status-reply: a listening station answers the requester: 'ready' only with a valid ring view and only to its predecessor, else 'not ready'");
             if ready {
-                assert!(st.state == State::ActiveIdle { status_request: None, new_previous_station: None, collision_count: 0 }, "C02/join: having answered with a valid ring view the station waits for the token as ring member");
+                vassert!(st.state == State::ActiveIdle { status_request: None, new_previous_station: None, collision_count: 0 }, "C01+C02+C12/answered-once: a request is answered exactly once (the pending request is cleared with the reply), and a station with a valid ring view then waits for the token as ring member");
             } else {
-                assert!(st.state == State::ListenToken { status_request: None, collision_count: cc }, "C12/status-reply: the request is answered once");
+                vassert!(st.state == State::ListenToken { status_request: None, collision_count: cc }, "C01+C12/answered-once: a request is answered exactly once (the pending request is cleared with the reply)");
             }
             kani::cover!(ready && src == pre.ring.ps, "cover: 'ready' reply to the predecessor");
             kani::cover!(ready && src != pre.ring.ps, "cover: 'not ready' to a stranger although the ring view is valid");
         } else {
-            assert!(s == Sent::Nothing, "C01/sync-pause: the reply waits for the synchronisation pause");
-            assert!(st.state == State::ListenToken { status_request: sr, collision_count: cc }, "C12/status-reply: the pending request is kept");
+            vassert!(s == Sent::Nothing, "C01/sync-pause: the reply waits for the synchronisation pause");
+            vassert!(st.state == State::ListenToken { status_request: sr, collision_count: cc }, "C12/status-reply: the pending request is kept");
         }
-        assert!(ring_calls() == 0, "C02/las: answering a request does not change the ring view");
+        vassert!(ring_untouched(&st), "C02/las: answering a request does not change the ring view");
         return;
     }
     // hearing telegrams
-    assert!(s == Sent::Nothing, "C01/role: a listening station transmits only replies and claims");
+    vassert!(s == Sent::Nothing, "C01/role: a listening station transmits only replies and claims");
     let mut want_sr = None;
     let mut want_cc = cc;
     let mut offline = false;
     let mut calls = 0usize;
-    let mut calls_ok = true;
+    let mut exp = Expect::new();
     let mut i = 0;
     while i < n {
         let t = &tel[i];
@@ -676,7 +807,7 @@ fn step_listen_token(log_on: bool) {
                     offline = true;
                 }
             } else if t.is_token() {
-                calls_ok = calls_ok && calls < ring_calls() && ring_call(calls) == RingCall { kind: 1, a: t.sa, b: t.da };
+                exp.call(1, t.sa, t.da);
                 calls += 1;
             } else if t.is_status_request_for(ts) && is_last {
                 want_sr = Some(t.sa);
@@ -685,11 +816,11 @@ fn step_listen_token(log_on: bool) {
         i += 1;
     }
     if offline {
-        assert!(st.state == State::Offline && st.connectivity_state == ConnectivityState::Offline, "C06/collision: hearing the own address as source twice while listening takes the station offline");
+        vassert!(st.state == State::Offline && st.connectivity_state == ConnectivityState::Offline, "C06/collision: hearing the own address as source twice while listening takes the station offline");
         kani::cover!(true, "cover: address collision while listening");
     } else {
-        assert!(st.state == State::ListenToken { status_request: want_sr, collision_count: want_cc }, "C12/status-latch: a status request is latched iff it is addressed to this station and is the last buffered telegram; collisions are counted");
-        assert!(calls_ok && calls == ring_calls(), "C02/las: the ring view is told exactly the witnessed token passes, in order");
+        vassert!(st.state == State::ListenToken { status_request: want_sr, collision_count: want_cc }, "C12/status-latch: a status request is latched iff it is addressed to this station and is the last buffered telegram; collisions are counted");
+        vassert!(exp.done(&st), "C02/las: the ring view is told exactly the witnessed token passes, in order");
         kani::cover!(want_sr.is_some(), "cover: status request latched");
         kani::cover!(calls == 2, "cover: two token passes witnessed in one poll");
     }
@@ -730,30 +861,30 @@ fn step_active_idle(log_on: bool) {
     universal(&pre, &st, &phy, now, 1);
     let s = sent(&phy);
     if pre.busy(now) {
-        assert!(st.state == State::ActiveIdle { status_request: sr, new_previous_station: np, collision_count: cc } && ring_calls() == 0, "C01/busy: nothing changes while a transmission is in progress");
+        vassert!(st.state == State::ActiveIdle { status_request: sr, new_previous_station: np, collision_count: cc } && ring_untouched(&st), "C01/busy: nothing changes while a transmission is in progress");
         return;
     }
     if pre.token_lost(now) {
-        assert!(s == Sent::Token { da: ts, sa: ts }, "C06/claim: after its token-lost time-out of silence the station claims the token with a token telegram to itself");
-        assert!(st.state == State::ClaimToken { step: ClaimTokenStep::SecondToken }, "C06/claim: the claim continues with the second token telegram");
-        assert!(st.gap_state == GapState::DoPoll { current_address: ts }, "C12/claim-scan: after a claim the whole GAP is scanned starting behind the own address");
+        vassert!(s == Sent::Token { da: ts, sa: ts }, "C06/claim: after its token-lost time-out of silence the station claims the token with a token telegram to itself");
+        vassert!(st.state == State::ClaimToken { step: ClaimTokenStep::SecondToken }, "C06/claim: the claim continues with the second token telegram");
+        vassert!(st.gap_state == GapState::DoPoll { current_address: ts }, "C12/claim-scan: after a claim the whole GAP is scanned starting behind the own address");
         return;
     }
-    assert!(!matches!(s, Sent::Token { .. }), "C01/role: an idle ring member sends no token unless it claims after its time-out");
+    vassert!(!matches!(s, Sent::Token { .. }), "C01/role: an idle ring member sends no token unless it claims after its time-out");
     if let Some(src) = sr {
         if pre.pause_over(now) {
-            assert!(is_status_response(&s, src, ts, crate::fdl::ResponseState::MasterInRing), "C12/status-reply: a ring member answers the requester with 'in ring'");
-            assert!(st.state == State::ActiveIdle { status_request: None, new_previous_station: np, collision_count: cc }, "C12/status-reply: the request is answered once");
+            vassert!(is_status_response(&s, src, ts, crate::fdl::ResponseState::MasterInRing), "C12/status-reply: a ring member answers the requester with 'in ring'");
+            vassert!(st.state == State::ActiveIdle { status_request: None, new_previous_station: np, collision_count: cc }, "C01+C12/answered-once: a request is answered exactly once (the pending request is cleared with the reply)");
             kani::cover!(true, "cover: 'in ring' reply");
         } else {
-            assert!(s == Sent::Nothing, "C01/sync-pause: the reply waits for the synchronisation pause");
-            assert!(st.state == State::ActiveIdle { status_request: sr, new_previous_station: np, collision_count: cc }, "C12/status-reply: the pending request is kept");
+            vassert!(s == Sent::Nothing, "C01/sync-pause: the reply waits for the synchronisation pause");
+            vassert!(st.state == State::ActiveIdle { status_request: sr, new_previous_station: np, collision_count: cc }, "C12/status-reply: the pending request is kept");
         }
-        assert!(ring_calls() == 0, "C02/las: answering a request does not change the ring view");
+        vassert!(ring_untouched(&st), "C02/las: answering a request does not change the ring view");
         return;
     }
-    assert!(s == Sent::Nothing, "C01/role: an idle ring member transmits only replies and claims");
-    let start = IdleRef { status_request: None, new_previous: np, collisions: cc, ring: pre.ring, outcome: 0, calls: 0, calls_ok: true };
+    vassert!(s == Sent::Nothing, "C01/role: an idle ring member transmits only replies and claims");
+    let start = IdleRef { status_request: None, new_previous: np, collisions: cc, ring: pre.ring, outcome: 0, exp: Expect::new() };
     let r = run_idle_ref(start, &tel, n, tail, ts);
     r.check(&st, now);
     kani::cover!(r.outcome == 2 && n == 1, "cover: token accepted from the predecessor");
@@ -796,51 +927,53 @@ fn step_check_token_pass(log_on: bool) {
     universal(&pre, &st, &phy, now, 1);
     let s = sent(&phy);
     if pre.busy(now) {
-        assert!(st.state == State::CheckTokenPass { attempt } && ring_calls() == 0, "C01/busy: nothing changes while a transmission is in progress");
+        vassert!(st.state == State::CheckTokenPass { attempt } && ring_untouched(&st), "C01/busy: nothing changes while a transmission is in progress");
         return;
     }
     if pre.new_bytes() {
         // (i) something is being heard: no retransmission and no removal in this poll
-        assert!(s == Sent::Nothing, "C11/heard-no-retry: while new bytes are arriving the token is not repeated");
-        assert!(ring_calls() == 0 || ring_call(0).kind != 3, "C11/never-remove-heard: a successor that is being heard is not removed");
+        vassert!(s == Sent::Nothing, "C11/heard-no-retry: while new bytes are arriving the token is not repeated");
+        vassert!(Expect::new().no_removal(), "C11/never-remove-heard: a successor that is being heard is not removed");
     }
     if pre.slot_expired(now) {
         // nothing heard for a slot time: repeat the pass (twice), then drop the successor
+        let mut exp = Expect::new();
         let (want_ns, want_attempt, removed) = match attempt {
             PassTokenAttempt::First => (pre.ring.ns, PassTokenAttempt::Second, false),
             PassTokenAttempt::Second => (pre.ring.ns, PassTokenAttempt::Third, false),
             PassTokenAttempt::Third => {
-                assert!(ring_calls() >= 1 && ring_call(0) == RingCall { kind: 3, a: pre.ring.ns, b: 0 }, "C11/remove-silent: after the third unanswered pass exactly the silent successor is removed from the ring view");
-                (ring_post(0).ns, PassTokenAttempt::First, true)
+                let v = exp.call(3, pre.ring.ns, 0);
+                vassert!(exp.ok_so_far(), "C11/remove-silent: after the third unanswered pass exactly the silent successor is removed from the ring view");
+                (v.ns, PassTokenAttempt::First, true)
             }
         };
         if !removed {
-            assert!(ring_calls() == 0 || ring_call(0).kind != 3, "C11/never-remove-early: the successor is not removed before the third unanswered pass");
+            vassert!(Expect::new().no_removal(), "C11/never-remove-early: the successor is not removed before the third unanswered pass");
         }
-        assert!(s == Sent::Token { da: want_ns, sa: ts }, "C11/retry: the pass is repeated to the same successor (at most twice), then goes to the next station");
-        let k = if removed { 1 } else { 0 };
-        assert!(ring_calls() == k + 1 && ring_call(k) == RingCall { kind: 1, a: ts, b: want_ns }, "C02/las: the own token pass is recorded in the ring view");
-        let ns_after = ring_post(k).ns;
+        vassert!(s == Sent::Token { da: want_ns, sa: ts }, "C11/retry: the pass is repeated to the same successor (at most twice), then goes to the next station");
+        let v = exp.call(1, ts, want_ns);
+        vassert!(exp.done(&st), "C02/las: the own token pass is recorded in the ring view");
+        let ns_after = v.ns;
         if ns_after == ts {
-            assert!(st.state == State::UseToken { data: UseTokenData { token_time: now, first_app: None }, first_cycle_done: false }, "C11/alone: a station that is alone keeps the token");
+            vassert!(st.state == State::UseToken { data: UseTokenData { token_time: now, first_app: None }, first_cycle_done: false }, "C11/alone: a station that is alone keeps the token");
         } else {
-            assert!(st.state == State::CheckTokenPass { attempt: want_attempt }, "C11/retry: each repetition is supervised again, counting attempts; a new successor starts at the first attempt");
+            vassert!(st.state == State::CheckTokenPass { attempt: want_attempt }, "C11/retry: each repetition is supervised again, counting attempts; a new successor starts at the first attempt");
         }
         kani::cover!(removed && ns_after == ts, "cover: last other station removed, token kept");
         kani::cover!(removed && ns_after != ts, "cover: silent successor removed, token to the next station");
         kani::cover!(attempt == PassTokenAttempt::First, "cover: first repetition");
         return;
     }
-    assert!(s == Sent::Nothing, "C11/supervise: within the slot time the station only listens");
+    vassert!(s == Sent::Nothing, "C11/supervise: within the slot time the station only listens");
     if n == 0 {
-        assert!(st.state == State::CheckTokenPass { attempt } && ring_calls() == 0, "C11/supervise: nothing heard, nothing changes");
+        vassert!(st.state == State::CheckTokenPass { attempt } && ring_untouched(&st), "C11/supervise: nothing heard, nothing changes");
         return;
     }
     // (ii) anything heard: the pass succeeded (or somebody else is active): become an idle member
-    let start = IdleRef { status_request: None, new_previous: None, collisions: 0, ring: pre.ring, outcome: 0, calls: 0, calls_ok: true };
+    let start = IdleRef { status_request: None, new_previous: None, collisions: 0, ring: pre.ring, outcome: 0, exp: Expect::new() };
     let r = run_idle_ref(start, &tel, n, tail, ts);
     r.check(&st, now);
-    assert!(ring_calls() == 0 || ring_call(0).kind != 3, "C11/never-remove-heard: a successor that was heard is not removed");
+    vassert!(Expect::new().no_removal(), "C11/never-remove-heard: a successor that was heard is not removed");
     kani::cover!(r.outcome == 0 && tel[0].kind == 1, "cover: short confirmation heard after the pass");
     kani::cover!(r.outcome == 2, "cover: token comes straight back");
 }
@@ -917,69 +1050,69 @@ fn step_claim_token(log_on: bool) {
     universal(&pre, &st, &phy, now, 1);
     let s = sent(&phy);
     if pre.busy(now) {
-        assert!(st.state == State::ClaimToken { step } && st.gap_state == pre.gap && ring_calls() == 0, "C01/busy: nothing changes while a transmission is in progress");
+        vassert!(st.state == State::ClaimToken { step } && st.gap_state == pre.gap && ring_untouched(&st), "C01/busy: nothing changes while a transmission is in progress");
         return;
     }
     // continue the scan from the given GAP state (Scan step, pause over)
     let scan = |st: &FdlActiveStation, s: &Sent, gap: GapState, ns: u8| match gap {
         GapState::Waiting { .. } => {
-            assert!(*s == Sent::Nothing && st.state == State::PassToken { do_gap: DoGap::No, attempt: PassTokenAttempt::First }, "C12/claim-scan: once the whole GAP was polled the new token is passed on");
+            vassert!(*s == Sent::Nothing && st.state == State::PassToken { do_gap: DoGap::No, attempt: PassTokenAttempt::First }, "C12/claim-scan: once the whole GAP was polled the new token is passed on");
         }
         GapState::DoPoll { current_address } => match ref_gap_next(current_address, ts, ns, hsa) {
             Some(a) => {
-                assert!(is_status_request(s, a, ts), "C12/claim-scan: after a claim consecutive GAP addresses are polled with status requests, one after the other");
-                assert!(st.state == State::ClaimToken { step: ClaimTokenStep::ScanAwaitResponse { address: a } } && st.gap_state == GapState::DoPoll { current_address: a }, "C12/claim-scan: the scan waits for the polled station's reply");
+                vassert!(is_status_request(s, a, ts), "C12/claim-scan: after a claim consecutive GAP addresses are polled with status requests, one after the other");
+                vassert!(st.state == State::ClaimToken { step: ClaimTokenStep::ScanAwaitResponse { address: a } } && st.gap_state == GapState::DoPoll { current_address: a }, "C12/claim-scan: the scan waits for the polled station's reply");
                 kani::cover!(true, "cover: GAP address polled during the post-claim scan");
             }
             None => {
-                assert!(*s == Sent::Nothing && st.state == State::ClaimToken { step: ClaimTokenStep::Scan } && st.gap_state == GapState::Waiting { rotation_count: 0 }, "C12/claim-scan: the scan ends when the GAP is exhausted");
+                vassert!(*s == Sent::Nothing && st.state == State::ClaimToken { step: ClaimTokenStep::Scan } && st.gap_state == GapState::Waiting { rotation_count: 0 }, "C12/claim-scan: the scan ends when the GAP is exhausted");
             }
         },
     };
     match step {
         ClaimTokenStep::FirstToken | ClaimTokenStep::SecondToken => {
             if pre.pause_over(now) {
-                assert!(s == Sent::Token { da: ts, sa: ts }, "C06/claim: the token is claimed with two token telegrams addressed to the station itself");
+                vassert!(s == Sent::Token { da: ts, sa: ts }, "C06/claim: the token is claimed with two token telegrams addressed to the station itself");
                 let next = if step == ClaimTokenStep::FirstToken { ClaimTokenStep::SecondToken } else { ClaimTokenStep::Scan };
-                assert!(st.state == State::ClaimToken { step: next }, "C06/claim: the claim proceeds step by step");
-                assert!(view_of(&st.token_ring).state == MLas::Valid, "C02/claim: a claiming station regards its ring view as valid");
-                assert!(st.gap_state == GapState::DoPoll { current_address: ts }, "C12/claim-scan: after a claim the whole GAP is scanned starting behind the own address");
+                vassert!(st.state == State::ClaimToken { step: next }, "C06/claim: the claim proceeds step by step");
+                vassert!(view_of(&st.token_ring).state == MLas::Valid, "C02/claim: a claiming station regards its ring view as valid");
+                vassert!(st.gap_state == GapState::DoPoll { current_address: ts }, "C12/claim-scan: after a claim the whole GAP is scanned starting behind the own address");
             } else {
-                assert!(s == Sent::Nothing && st.state == State::ClaimToken { step }, "C01/sync-pause: the claim waits for the synchronisation pause");
+                vassert!(s == Sent::Nothing && st.state == State::ClaimToken { step }, "C01/sync-pause: the claim waits for the synchronisation pause");
             }
-            assert!(ring_calls() == 0, "C02/las: claiming reports no token pass");
+            vassert!(ring_untouched(&st), "C02/las: claiming reports no token pass");
         }
         ClaimTokenStep::Scan => {
             if pre.pause_over(now) {
                 scan(&st, &s, pre.gap, pre.ring.ns);
             } else {
-                assert!(s == Sent::Nothing && st.state == State::ClaimToken { step } && st.gap_state == pre.gap, "C01/sync-pause: the scan waits for the synchronisation pause");
+                vassert!(s == Sent::Nothing && st.state == State::ClaimToken { step } && st.gap_state == pre.gap, "C01/sync-pause: the scan waits for the synchronisation pause");
             }
-            assert!(ring_calls() == 0, "C02/las: polling reports nothing to the ring view");
+            vassert!(ring_untouched(&st), "C02/las: polling reports nothing to the ring view");
         }
         ClaimTokenStep::ScanAwaitResponse { address: a } => {
             if n >= 1 {
                 let (is_reply, ready) = status_reply_from(&tel[0], a, ts);
-                assert!(s == Sent::Nothing, "C01/role: nothing is sent in the poll that receives a telegram");
+                vassert!(s == Sent::Nothing, "C01/role: nothing is sent in the poll that receives a telegram");
                 if is_reply {
-                    assert!(st.state == State::ClaimToken { step: ClaimTokenStep::Scan }, "C12/claim-scan: after a reply the scan continues");
+                    vassert!(st.state == State::ClaimToken { step: ClaimTokenStep::Scan }, "C12/claim-scan: after a reply the scan continues");
                     if ready {
-                        assert!(ring_calls() == 1 && ring_call(0) == RingCall { kind: 2, a, b: 0 }, "C02+C06+C12/adopt: a polled station reporting to be a ready master (without token, or - a live member that dropped out of this station's view - already in ring) becomes the successor");
+                        vassert!({ let mut e = Expect::new(); e.call(2, a, 0); e.done(&st) }, "C02+C06+C12/adopt: a polled station reporting to be a ready master (without token, or - a live member that dropped out of this station's view - already in ring) becomes the successor");
                         kani::cover!(true, "cover: ready master found during the post-claim scan");
                     } else {
-                        assert!(ring_calls() == 0, "C12/reply-evaluation: any other reply leaves the successor unchanged");
+                        vassert!(ring_untouched(&st), "C12/reply-evaluation: any other reply leaves the successor unchanged");
                     }
                 } else {
-                    assert!(st.state == IDLE_FRESH, "C06/back-off: a telegram that is not the awaited reply makes the scanning station back off to idle (no second token holder lingers)");
-                    assert!(ring_calls() == 0, "C02/las: backing off reports nothing to the ring view");
+                    vassert!(st.state == IDLE_FRESH, "C06/back-off: a telegram that is not the awaited reply makes the scanning station back off to idle (no second token holder lingers)");
+                    vassert!(ring_untouched(&st), "C02/las: backing off reports nothing to the ring view");
                     kani::cover!(true, "cover: foreign telegram during the post-claim scan");
                 }
             } else if pre.slot_expired(now) {
                 // no reply within the slot time: immediately go on with the scan
-                assert!(ring_calls() == 0, "C12/reply-evaluation: silence leaves the successor unchanged");
+                vassert!(ring_untouched(&st), "C12/reply-evaluation: silence leaves the successor unchanged");
                 scan(&st, &s, pre.gap, pre.ring.ns);
             } else {
-                assert!(s == Sent::Nothing && st.state == State::ClaimToken { step } && ring_calls() == 0, "C12/claim-scan: the reply is awaited for one slot time");
+                vassert!(s == Sent::Nothing && st.state == State::ClaimToken { step } && ring_untouched(&st), "C12/claim-scan: the reply is awaited for one slot time");
             }
         }
     }
@@ -1001,13 +1134,15 @@ l2_harness! {
 
 /// After the own token pass TS -> `ns_before`: the call is recorded, the station supervises the
 /// pass or - being alone - keeps the token.
-fn check_own_pass(st: &FdlActiveStation, s: &Sent, call_index: usize, ts: u8, ns_before: u8, attempt: PassTokenAttempt, now: Inst) {
-    assert!(*s == Sent::Token { da: ns_before, sa: ts }, "C11/pass: the token is passed to the successor");
-    assert!(ring_calls() == call_index + 1 && ring_call(call_index) == RingCall { kind: 1, a: ts, b: ns_before }, "C02/las: the own token pass is recorded in the ring view");
-    if ring_post(call_index).ns == ts {
-        assert!(st.state == State::UseToken { data: UseTokenData { token_time: now, first_app: None }, first_cycle_done: false }, "C11/alone: a station that is alone keeps the token");
+fn check_own_pass(st: &FdlActiveStation, s: &Sent, ts: u8, ns_before: u8, attempt: PassTokenAttempt, now: Inst) {
+    vassert!(*s == Sent::Token { da: ns_before, sa: ts }, "C11/pass: the token is passed to the successor");
+    let mut exp = Expect::new();
+    let v = exp.call(1, ts, ns_before);
+    vassert!(exp.done(st), "C02/las: the own token pass is recorded in the ring view");
+    if v.ns == ts {
+        vassert!(st.state == State::UseToken { data: UseTokenData { token_time: now, first_app: None }, first_cycle_done: false }, "C11/alone: a station that is alone keeps the token");
     } else {
-        assert!(st.state == State::CheckTokenPass { attempt }, "C11/supervise: after passing the token the station supervises the bus");
+        vassert!(st.state == State::CheckTokenPass { attempt }, "C11/supervise: after passing the token the station supervises the bus");
     }
 }
 
@@ -1029,10 +1164,10 @@ fn step_pass_token(log_on: bool) {
     universal(&pre, &st, &phy, now, 1);
     let s = sent(&phy);
     if pre.busy(now) || !pre.pause_over(now) {
-        assert!(s == Sent::Nothing && st.state == State::PassToken { do_gap, attempt } && st.gap_state == pre.gap && ring_calls() == 0, "C01/sync-pause: the pass waits for the end of the transmission and the synchronisation pause");
+        vassert!(s == Sent::Nothing && st.state == State::PassToken { do_gap, attempt } && st.gap_state == pre.gap && ring_untouched(&st), "C01/sync-pause: the pass waits for the end of the transmission and the synchronisation pause");
         return;
     }
-    assert!(phy.rx_calls <= 1, "C01/role: a passing station does not read telegrams");
+    vassert!(phy.rx_calls <= 1, "C01/role: a passing station does not read telegrams");
     if do_gap == DoGap::Yes {
         let want_gap = match pre.gap {
             GapState::Waiting { rotation_count } => {
@@ -1050,20 +1185,20 @@ fn step_pass_token(log_on: bool) {
                 None => GapState::Waiting { rotation_count: 0 },
             },
         };
-        assert!(st.gap_state == want_gap, "C12/gap-sweep: per token visit the sweep advances by one address, then pauses for the configured number of rotations and restarts behind the own address");
+        vassert!(st.gap_state == want_gap, "C12/gap-sweep: per token visit the sweep advances by one address, then pauses for the configured number of rotations and restarts behind the own address");
         if let GapState::DoPoll { current_address: a } = want_gap {
-            assert!(is_status_request(&s, a, ts), "C12/gap-poll: the GAP address is polled with an FDL status request from this station");
-            assert!(ref_in_gap(a, ts, pre.ring.ns, hsa), "C12/gap-range: a polled address lies strictly between this station and its successor (cyclically)");
-            assert!(st.state == State::AwaitStatusResponse { address: a }, "C12/one-poll-per-visit: after the poll the station awaits the reply and then passes the token");
-            assert!(ring_calls() == 0, "C02/las: polling reports nothing to the ring view");
+            vassert!(is_status_request(&s, a, ts), "C12/gap-poll: the GAP address is polled with an FDL status request from this station");
+            vassert!(ref_in_gap(a, ts, pre.ring.ns, hsa), "C12/gap-range: a polled address lies strictly between this station and its successor (cyclically)");
+            vassert!(st.state == State::AwaitStatusResponse { address: a }, "C12/one-poll-per-visit: after the poll the station awaits the reply and then passes the token");
+            vassert!(ring_untouched(&st), "C02/las: polling reports nothing to the ring view");
             kani::cover!(matches!(pre.gap, GapState::Waiting { .. }), "cover: new sweep starts after the waiting period");
             kani::cover!(a == 0 && ts > 0, "cover: sweep wraps around below TS");
             return;
         }
     } else {
-        assert!(st.gap_state == pre.gap, "C12/one-poll-per-visit: no GAP activity when the visit's poll is already done");
+        vassert!(st.gap_state == pre.gap, "C12/one-poll-per-visit: no GAP activity when the visit's poll is already done");
     }
-    check_own_pass(&st, &s, 0, ts, pre.ring.ns, attempt, now);
+    check_own_pass(&st, &s, ts, pre.ring.ns, attempt, now);
     kani::cover!(pre.ring.ns == ts, "cover: token passed to self when alone");
 }
 
@@ -1099,33 +1234,33 @@ fn step_await_status_response(log_on: bool) {
 
     universal(&pre, &st, &phy, now, 1);
     let s = sent(&phy);
-    assert!(st.gap_state == pre.gap, "C12/gap-sweep: awaiting the reply does not move the sweep");
+    vassert!(st.gap_state == pre.gap, "C12/gap-sweep: awaiting the reply does not move the sweep");
     if pre.busy(now) {
-        assert!(st.state == State::AwaitStatusResponse { address: a } && ring_calls() == 0, "C01/busy: nothing changes while a transmission is in progress");
+        vassert!(st.state == State::AwaitStatusResponse { address: a } && ring_untouched(&st), "C01/busy: nothing changes while a transmission is in progress");
         return;
     }
     if n >= 1 {
         let (is_reply, ready) = status_reply_from(&tel[0], a, ts);
-        assert!(s == Sent::Nothing, "C01/role: nothing is sent in the poll that receives a telegram");
+        vassert!(s == Sent::Nothing, "C01/role: nothing is sent in the poll that receives a telegram");
         if is_reply {
-            assert!(st.state == State::PassToken { do_gap: DoGap::No, attempt: PassTokenAttempt::First }, "C12/one-poll-per-visit: after the reply the token is passed on without another poll");
+            vassert!(st.state == State::PassToken { do_gap: DoGap::No, attempt: PassTokenAttempt::First }, "C12/one-poll-per-visit: after the reply the token is passed on without another poll");
             if ready {
-                assert!(ring_calls() == 1 && ring_call(0) == RingCall { kind: 2, a, b: 0 }, "C02+C06+C12/adopt: a polled station reporting to be a ready master (without token, or - a live member that dropped out of this station's view - already in ring) becomes the successor");
+                vassert!({ let mut e = Expect::new(); e.call(2, a, 0); e.done(&st) }, "C02+C06+C12/adopt: a polled station reporting to be a ready master (without token, or - a live member that dropped out of this station's view - already in ring) becomes the successor");
                 kani::cover!(reports_in_ring(&tel[0]), "cover: dropped ring member re-admitted");
                 kani::cover!(true, "cover: ready master becomes the successor");
             } else {
-                assert!(ring_calls() == 0, "C12/reply-evaluation: any other reply leaves the successor unchanged");
+                vassert!(ring_untouched(&st), "C12/reply-evaluation: any other reply leaves the successor unchanged");
                 kani::cover!(true, "cover: reply from a slave or not-ready master");
             }
         } else {
-            assert!(st.state == IDLE_FRESH && ring_calls() == 0, "C06/back-off: a telegram that is not the awaited reply makes the station back off to idle (no second token holder lingers)");
+            vassert!(st.state == IDLE_FRESH && ring_untouched(&st), "C06/back-off: a telegram that is not the awaited reply makes the station back off to idle (no second token holder lingers)");
             kani::cover!(tel[0].is_token(), "cover: token heard while awaiting a status reply");
         }
     } else if pre.slot_expired(now) {
         // silence: pass the token right away
-        check_own_pass(&st, &s, 0, ts, pre.ring.ns, PassTokenAttempt::First, now);
+        check_own_pass(&st, &s, ts, pre.ring.ns, PassTokenAttempt::First, now);
     } else {
-        assert!(s == Sent::Nothing && st.state == State::AwaitStatusResponse { address: a } && ring_calls() == 0, "C12/gap-poll: the reply is awaited for one slot time");
+        vassert!(s == Sent::Nothing && st.state == State::AwaitStatusResponse { address: a } && ring_untouched(&st), "C12/gap-poll: the reply is awaited for one slot time");
     }
 }
 
@@ -1187,8 +1322,8 @@ fn check_use_token(
         let mut k = 0;
         while k < napps {
             asked += 1;
-            assert!(apps[idx].tx_calls == 1 && apps[idx].tx_seq == seq_base + asked, "C15/round-robin: applications are asked in round-robin order starting with the one whose turn it is, each at most once per poll");
-            assert!(apps[idx].tx_high_prio_only == !hold_open, "C13/hold-gate: low-priority cycles are offered only while the token hold time is running; afterwards only the one guaranteed high-priority cycle");
+            vassert!(apps[idx].tx_calls == 1 && apps[idx].tx_seq == seq_base + asked, "C15/round-robin: applications are asked in round-robin order starting with the one whose turn it is, each at most once per poll");
+            vassert!(apps[idx].tx_high_prio_only == !hold_open, "C13/hold-gate: low-priority cycles are offered only while the token hold time is running; afterwards only the one guaranteed high-priority cycle");
             if apps[idx].behaviour != 0 {
                 sender = Some(idx);
                 break;
@@ -1210,29 +1345,29 @@ fn check_use_token(
         i += 1;
     }
     if !offer {
-        assert!(total == 0, "C13/one-cycle: once the hold time is over and the visit's guaranteed message cycle was used, no application is asked again in this token visit");
+        vassert!(total == 0, "C13/one-cycle: once the hold time is over and the visit's guaranteed message cycle was used, no application is asked again in this token visit");
     }
-    assert!(total == asked, "C15/round-robin: no application is asked outside its turn");
+    vassert!(total == asked, "C15/round-robin: no application is asked outside its turn");
     let data_after = UseTokenData { token_time: data.token_time, first_app };
     match sender {
         Some(i) => {
-            assert!(st.next_application == i, "C15/round-robin: the sending application keeps its turn until its message cycle is over");
+            vassert!(st.next_application == i, "C15/round-robin: the sending application keeps its turn until its message cycle is over");
             if apps[i].behaviour == 1 {
-                assert!(is_status_request(s, apps[i].target, ts), "C15/tx: the application's telegram is what goes on the wire");
-                assert!(st.state == State::AwaitDataResponse { address: apps[i].target, data: data_after }, "C15/await: a request that expects a reply is followed by waiting for exactly that station's reply");
+                vassert!(is_status_request(s, apps[i].target, ts), "C15/tx: the application's telegram is what goes on the wire");
+                vassert!(st.state == State::AwaitDataResponse { address: apps[i].target, data: data_after }, "C15/await: a request that expects a reply is followed by waiting for exactly that station's reply");
                 
             } else {
-                assert!(matches!(s, Sent::Data(h, 2) if h.da == 127), "C15/tx: the application's telegram is what goes on the wire");
-                assert!(st.state == State::UseToken { data: data_after, first_cycle_done: true }, "C15/await: a request without reply keeps the token in use");
+                vassert!(matches!(s, Sent::Data(h, 2) if h.da == 127), "C15/tx: the application's telegram is what goes on the wire");
+                vassert!(st.state == State::UseToken { data: data_after, first_cycle_done: true }, "C15/await: a request without reply keeps the token in use");
             }
         }
         None => {
-            assert!(*s == Sent::Nothing, "C01/role: without an application telegram nothing is sent in this poll");
-            assert!(st.state == State::PassToken { do_gap: DoGap::Yes, attempt: PassTokenAttempt::First }, "C13/pass-on: when every application has declined once or the hold time is over the token is passed on (with the visit's GAP turn)");
+            vassert!(*s == Sent::Nothing, "C01/role: without an application telegram nothing is sent in this poll");
+            vassert!(st.state == State::PassToken { do_gap: DoGap::Yes, attempt: PassTokenAttempt::First }, "C13/pass-on: when every application has declined once or the hold time is over the token is passed on (with the visit's GAP turn)");
             if offer && napps > 0 {
-                assert!(st.next_application == idx, "C15/round-robin: a decline advances the turn by exactly one application");
+                vassert!(st.next_application == idx, "C15/round-robin: a decline advances the turn by exactly one application");
             } else {
-                assert!(st.next_application == pre_next, "C15/round-robin: the turn does not move when nobody was asked");
+                vassert!(st.next_application == pre_next, "C15/round-robin: the turn does not move when nobody was asked");
             }
             if napps >= 1 {
                 kani::cover!(offer && asked as usize == napps, "cover: all applications decline in turn");
@@ -1269,14 +1404,14 @@ fn step_use_token(log_on: bool, napps: usize) {
 
     universal(&pre, &st, &phy, now, napps);
     let s = sent(&phy);
-    assert!(ring_calls() == 0, "C02/las: using the token reports nothing to the ring view");
+    vassert!(ring_untouched(&st), "C02/las: using the token reports nothing to the ring view");
     let mut i = 0;
     while i < 3 {
-        assert!(apps[i].rx_calls == 0 && apps[i].to_calls == 0, "C15/matched-reply: no reply or time-out is delivered while no reply is outstanding");
+        vassert!(apps[i].rx_calls == 0 && apps[i].to_calls == 0, "C15/matched-reply: no reply or time-out is delivered while no reply is outstanding");
         i += 1;
     }
     if pre.busy(now) {
-        assert!(st.state == State::UseToken { data, first_cycle_done: fcd } && apps[0].tx_calls + apps[1].tx_calls + apps[2].tx_calls == 0, "C01/busy: nothing changes while a transmission is in progress");
+        vassert!(st.state == State::UseToken { data, first_cycle_done: fcd } && apps[0].tx_calls + apps[1].tx_calls + apps[2].tx_calls == 0, "C01/busy: nothing changes while a transmission is in progress");
         return;
     }
     // hold time bookkeeping on the first poll of a token visit
@@ -1287,10 +1422,10 @@ fn step_use_token(log_on: bool, napps: usize) {
     } else {
         pre.end_hold
     };
-    assert!(st.end_token_hold_time == want_end, "C13/hold-time: the token hold time ends one target rotation time after the previous token receipt (minus one GAP poll when one is pending)");
-    assert!(st.last_token_time == data.token_time, "C13/hold-time: the receipt time of this visit's token is remembered for the next rotation");
+    vassert!(st.end_token_hold_time == want_end, "C13/hold-time: the token hold time ends one target rotation time after the previous token receipt (minus one GAP poll when one is pending)");
+    vassert!(st.last_token_time == data.token_time, "C13/hold-time: the receipt time of this visit's token is remembered for the next rotation");
     if !pre.pause_over(now) {
-        assert!(s == Sent::Nothing && st.state == State::UseToken { data, first_cycle_done: fcd } && apps[0].tx_calls + apps[1].tx_calls + apps[2].tx_calls == 0, "C01/sync-pause: the token is used only after the synchronisation pause");
+        vassert!(s == Sent::Nothing && st.state == State::UseToken { data, first_cycle_done: fcd } && apps[0].tx_calls + apps[1].tx_calls + apps[2].tx_calls == 0, "C01/sync-pause: the token is used only after the synchronisation pause");
         return;
     }
     check_use_token(&st, &s, &apps, napps, pre.next_app, data, fcd, want_end, now, ts, 0);
@@ -1327,45 +1462,45 @@ fn step_await_data_response(log_on: bool, napps: usize) {
 
     universal(&pre, &st, &phy, now, napps);
     let s = sent(&phy);
-    assert!(ring_calls() == 0, "C02/las: awaiting a reply reports nothing to the ring view");
+    vassert!(ring_untouched(&st), "C02/las: awaiting a reply reports nothing to the ring view");
     let mut i = 0;
     while i < 3 {
         if i != who {
-            assert!(apps[i].rx_calls == 0 && apps[i].to_calls == 0, "C15/matched-reply: replies and time-outs go only to the application that sent the request");
+            vassert!(apps[i].rx_calls == 0 && apps[i].to_calls == 0, "C15/matched-reply: replies and time-outs go only to the application that sent the request");
         }
         i += 1;
     }
-    assert!(apps[who].rx_calls + apps[who].to_calls <= 1, "C15/matched-reply: at most one of reply and time-out is delivered per request");
+    vassert!(apps[who].rx_calls + apps[who].to_calls <= 1, "C15/matched-reply: at most one of reply and time-out is delivered per request");
     if pre.busy(now) {
-        assert!(st.state == State::AwaitDataResponse { address, data } && apps[who].callbacks() == 0, "C01/busy: nothing changes while a transmission is in progress");
+        vassert!(st.state == State::AwaitDataResponse { address, data } && apps[who].callbacks() == 0, "C01/busy: nothing changes while a transmission is in progress");
         return;
     }
     if n >= 1 {
         let t = &tel[0];
         let valid = t.kind == 1 || (t.kind == 2 && t.sa == address && t.da == ts && matches!(t.fc, crate::fdl::FunctionCode::Response { .. }));
-        assert!(s == Sent::Nothing, "C01/role: nothing is sent in the poll that receives a telegram");
+        vassert!(s == Sent::Nothing, "C01/role: nothing is sent in the poll that receives a telegram");
         if valid {
-            assert!(apps[who].rx_calls == 1 && apps[who].to_calls == 0 && apps[who].rx_addr == address, "C15/matched-reply: the reply is delivered once, to the sender, tagged with the addressed station");
-            assert!(apps[who].rx_kind == t.kind && (t.kind == 1 || (apps[who].rx_sa == address && apps[who].rx_da == ts && apps[who].rx_is_response)), "C15/admission: a delivered reply is a short confirmation or a response telegram from the addressed station to this station");
-            assert!(matches!(st.state, State::UseToken { data: d, .. } if d == data), "C15/await: after the reply the token is in use again");
-            assert!(st.state == State::UseToken { data, first_cycle_done: true }, "C13/one-cycle: a completed message cycle counts as the visit's guaranteed cycle");
-            assert!(apps[0].tx_calls + apps[1].tx_calls + apps[2].tx_calls == 0, "C15/round-robin: no new request in the poll that delivered the reply");
+            vassert!(apps[who].rx_calls == 1 && apps[who].to_calls == 0 && apps[who].rx_addr == address, "C15/matched-reply: the reply is delivered once, to the sender, tagged with the addressed station");
+            vassert!(apps[who].rx_kind == t.kind && (t.kind == 1 || (apps[who].rx_sa == address && apps[who].rx_da == ts && apps[who].rx_is_response)), "C15/admission: a delivered reply is a short confirmation or a response telegram from the addressed station to this station");
+            vassert!(matches!(st.state, State::UseToken { data: d, .. } if d == data), "C15/await: after the reply the token is in use again");
+            vassert!(st.state == State::UseToken { data, first_cycle_done: true }, "C13/one-cycle: a completed message cycle counts as the visit's guaranteed cycle");
+            vassert!(apps[0].tx_calls + apps[1].tx_calls + apps[2].tx_calls == 0, "C15/round-robin: no new request in the poll that delivered the reply");
             kani::cover!(t.kind == 1, "cover: short confirmation delivered");
             kani::cover!(t.kind == 2, "cover: response telegram delivered");
         } else {
-            assert!(apps[who].callbacks() == 0, "C15/admission: a telegram that is not a reply to the request is never delivered to the application");
-            assert!(st.state == IDLE_FRESH, "C06/back-off: a telegram that is not the awaited reply makes the token holder back off to idle");
+            vassert!(apps[who].callbacks() == 0, "C15/admission: a telegram that is not a reply to the request is never delivered to the application");
+            vassert!(st.state == IDLE_FRESH, "C06/back-off: a telegram that is not the awaited reply makes the token holder back off to idle");
             kani::cover!(t.kind == 2 && t.sa == address && t.da == ts, "cover: request (not response) from the addressed station rejected");
             kani::cover!(t.kind == 2 && t.sa != address && matches!(t.fc, crate::fdl::FunctionCode::Response { .. }), "cover: response from a foreign source rejected");
         }
         return;
     }
     if !pre.slot_expired(now) {
-        assert!(s == Sent::Nothing && st.state == State::AwaitDataResponse { address, data } && apps[who].callbacks() == 0, "C15/await: the reply is awaited for one slot time");
+        vassert!(s == Sent::Nothing && st.state == State::AwaitDataResponse { address, data } && apps[who].callbacks() == 0, "C15/await: the reply is awaited for one slot time");
         return;
     }
     // time-out: delivered once, then the token is used again at once
-    assert!(apps[who].to_calls == 1 && apps[who].rx_calls == 0 && apps[who].to_addr == address && apps[who].to_seq == 1, "C15/matched-reply: the time-out is delivered once, to the sender, before anything else happens");
+    vassert!(apps[who].to_calls == 1 && apps[who].rx_calls == 0 && apps[who].to_addr == address && apps[who].to_seq == 1, "C15/matched-reply: the time-out is delivered once, to the sender, before anything else happens");
     let first_poll = pre.last_token_time != data.token_time;
     let want_end = if first_poll {
         let reserve = if matches!(pre.gap, GapState::DoPoll { .. }) { gap_reserve_us() } else { 0 };
@@ -1476,16 +1611,16 @@ fn step_bytes(state: State) {
     let pre = snapshot(&st, &phy);
     st.poll(now, &mut phy, &mut ());
     // rx_calls counts the pending-bytes probe as well: compare transmissions only
-    assert!(phy.tx_calls <= 1, "C01/one-tx: at most one transmission is started per poll");
+    vassert!(phy.tx_calls <= 1, "C01/one-tx: at most one transmission is started per poll");
     if pre.busy(now) {
-        assert!(phy.tx_calls == 0, "C01/busy: while a transmission is in progress the station does not transmit");
+        vassert!(phy.tx_calls == 0, "C01/busy: while a transmission is in progress the station does not transmit");
     }
     if phy.tx_calls == 1 {
         let idle_us = now.total_micros() - pre.lba.unwrap().total_micros();
-        assert!((idle_us as u64) * rate() + rate() >= 33_000_000, "C01/sync-pause: every telegram starts at least 33 bit times after the end of the previous bus activity");
-        assert!(!pre.new_bytes(), "C01/idle-after-rx: nothing is sent in a poll in which newly received bytes became visible");
+        vassert!((idle_us as u64) * rate() + rate() >= 33_000_000, "C01/sync-pause: every telegram starts at least 33 bit times after the end of the previous bus activity");
+        vassert!(!pre.new_bytes(), "C01/idle-after-rx: nothing is sent in a poll in which newly received bytes became visible");
     }
-    assert!(inv_fdl(&st, 1), "C05/inv: the representation invariant of the station is preserved by poll()");
+    vassert!(inv_fdl(&st, 1), "C05/inv: the representation invariant of the station is preserved by poll()");
     kani::cover!(phy.rx_off > 0, "cover: bytes consumed from the receive buffer");
     kani::cover!(phy.tx_calls == 1, "cover: a transmission is started");
 }
@@ -1509,4 +1644,41 @@ l2_harness! {
     fn l2_bytes_await_status_response_t() {
         step_bytes(State::AwaitStatusResponse { address: kani::any() })
     }
+}
+
+
+// ==========================================================================================
+// replay twins
+// ==========================================================================================
+//
+// Not part of any verdict.  When a step harness above fails, the runner re-runs the same step
+// here with the precise reference ring over a small consistent LAS (`RingMode::Small`): the stubs
+// then draw no nondeterministic values, so Kani's concrete playback lines up with a native run in
+// which the REAL bitvec TokenRing executes, and the counterexample starts from a ring view that
+// satisfies TokenRing's own invariant.  If the twin finds no counterexample (the failure needs a
+// ring evolution the small ring cannot produce) the runner falls back to the original's playback.
+
+l2_harness! {
+    #[kani::unwind(5)]
+    fn l2_listen_token__replay() { use_small_ring(); step_listen_token(true) }
+}
+l2_harness! {
+    #[kani::unwind(5)]
+    fn l2_active_idle__replay() { use_small_ring(); step_active_idle(true) }
+}
+l2_harness! {
+    #[kani::unwind(5)]
+    fn l2_check_token_pass__replay() { use_small_ring(); step_check_token_pass(true) }
+}
+l2_harness! {
+    #[kani::unwind(5)]
+    fn l2_claim_token__replay() { use_small_ring(); step_claim_token(true) }
+}
+l2_harness! {
+    #[kani::unwind(5)]
+    fn l2_pass_token__replay() { use_small_ring(); step_pass_token(true) }
+}
+l2_harness! {
+    #[kani::unwind(5)]
+    fn l2_await_status_response__replay() { use_small_ring(); step_await_status_response(true) }
 }
